@@ -90,6 +90,7 @@ class Scheduler:
         self.deadlock = False
         self.timer_fired = 0         # join deadlines that expired with the target still alive
         self.async_sent = 0
+        self.async_sent_by_grader = 0
         self.async_landings = []     # (thread index, kind, file, func, line, global event)
         self.joins = 0
         self.clock_jumps = 0
@@ -403,6 +404,16 @@ class Scheduler:
             late = self.params.get('zombie_late')
             if late:
                 target.frozen_until = self.nevents + late
+        if me.pending_exc is not None and me.index != 0:
+            # the waiter was itself given up on while it waited: CPython raises the pending asynchronous exception as
+            # soon as the thread executes bytecode again, which is inside threading.py's join(), i.e. the exception
+            # comes OUT OF the join() call (not at the next line of the caller)
+            exc = me.pending_exc
+            me.pending_exc = None
+            site = (me.index, 'J', 'threading.py', 'join', 0, self.nevents, me.events)
+            self.async_landings.append(site)
+            me.async_landed.append(site)
+            raise (exc() if isinstance(exc, type) else exc)
 
     def sleep(self, seconds):
         me = self.current
@@ -568,6 +579,8 @@ class _FakePythonApi:
                     if 'delay' not in st.sent_site:
                         st.sent_site['delay'] = st.pending_delay     # own events the thread still executes before it lands
                     sched.async_sent += 1
+                    if sched.current is not None and sched.current.index == 0:
+                        sched.async_sent_by_grader += 1      # pedal gives up on an execution (vs. a student thread on its nested import)
                 n += 1
         return n
 
